@@ -1,8 +1,8 @@
 use std::collections::HashSet;
 
 use emmylua_parser::{
-    LuaAstNode, LuaClosureExpr, LuaLiteralExpr, LuaParseErrorKind, LuaSyntaxKind, LuaSyntaxToken,
-    LuaTokenKind, float_token_value, int_token_value,
+    LuaAstNode, LuaClosureExpr, LuaLanguageLevel, LuaLiteralExpr, LuaParseErrorKind, LuaSyntaxKind,
+    LuaSyntaxToken, LuaTokenKind, float_token_value, int_token_value,
 };
 
 use crate::{DiagnosticCode, LuaSignatureId, SemanticModel};
@@ -32,6 +32,11 @@ impl Checker for SyntaxErrorChecker {
             }
         }
 
+        let string_level = semantic_model
+            .get_emmyrc()
+            .runtime
+            .version
+            .get_language_level();
         let root = semantic_model.get_root();
         for node_or_token in root.syntax().descendants_with_tokens() {
             if let Some(token) = node_or_token.into_token() {
@@ -57,7 +62,7 @@ impl Checker for SyntaxErrorChecker {
                         }
                     }
                     LuaTokenKind::TkString => {
-                        if let Err(err) = check_normal_string_error(&token) {
+                        if let Err(err) = check_normal_string_error(&token, string_level) {
                             context.add_diagnostic(
                                 DiagnosticCode::SyntaxError,
                                 token.text_range(),
@@ -77,11 +82,27 @@ impl Checker for SyntaxErrorChecker {
 }
 
 // this function is like string_token_value, but optimize for performance
-fn check_normal_string_error(string_token: &LuaSyntaxToken) -> Result<(), String> {
+//
+// Escape sequences by language level (reference manuals, "Lexical Conventions"):
+// - every level: \a \b \f \n \r \t \v \\ \" \' backslash-newline and \ddd (at most 255)
+// - Lua 5.1: a backslash before any other character just yields that character
+// - from Lua 5.2 (and LuaJIT): \z and \xXX; any other escape is invalid
+// - from Lua 5.3 (and LuaJIT): \u{XXX}, up to 10FFFF (Lua 5.3, LuaJIT) or below 2^31 (Lua 5.4 and later)
+fn check_normal_string_error(
+    string_token: &LuaSyntaxToken,
+    level: LuaLanguageLevel,
+) -> Result<(), String> {
     let text = string_token.text();
     if text.len() < 2 {
         return Ok(());
     }
+
+    let lua51 = level == LuaLanguageLevel::Lua51;
+    let has_unicode_escape = !matches!(level, LuaLanguageLevel::Lua51 | LuaLanguageLevel::Lua52);
+    let max_code_point: u64 = match level {
+        LuaLanguageLevel::Lua54 | LuaLanguageLevel::Lua55 => 0x7FFF_FFFF,
+        _ => 0x10_FFFF,
+    };
 
     let mut chars = text.chars().peekable();
     let delimiter = match chars.next() {
@@ -96,18 +117,10 @@ fn check_normal_string_error(string_token: &LuaSyntaxToken) -> Result<(), String
                     match next_char {
                         'a' | 'b' | 'f' | 'n' | 'r' | 't' | 'v' | '\\' | '\'' | '\"' | '\r'
                         | '\n' => {}
-                        'x' => {
+                        'x' if !lua51 => {
                             // Hexadecimal escape sequence
                             let hex = chars.by_ref().take(2).collect::<String>();
-                            if hex.len() == 2 && hex.chars().all(|c| c.is_ascii_hexdigit()) {
-                                if u8::from_str_radix(&hex, 16).is_err() {
-                                    return Err(t!(
-                                        "Invalid hex escape sequence '\\x%{hex}'",
-                                        hex = hex
-                                    )
-                                    .to_string());
-                                }
-                            } else {
+                            if hex.len() != 2 || !hex.chars().all(|c| c.is_ascii_hexdigit()) {
                                 return Err(t!(
                                     "Invalid hex escape sequence '\\x%{hex}'",
                                     hex = hex
@@ -115,35 +128,63 @@ fn check_normal_string_error(string_token: &LuaSyntaxToken) -> Result<(), String
                                 .to_string());
                             }
                         }
-                        'u' => {
-                            // Unicode escape sequence
-                            if let Some('{') = chars.next() {
-                                let unicode_hex =
-                                    chars.by_ref().take_while(|c| *c != '}').collect::<String>();
-                                // Lua encodes any value below 2^31 (surrogates included)
-                                if let Ok(code_point) = u32::from_str_radix(&unicode_hex, 16)
-                                    && code_point > 0x7FFF_FFFF
-                                {
-                                    return Err(t!(
-                                        "Invalid unicode escape sequence '\\u{{%{unicode_hex}}}'",
-                                        unicode_hex = unicode_hex
-                                    )
-                                    .to_string());
+                        'u' if has_unicode_escape => {
+                            // Unicode escape sequence: '{', one or more hex digits, '}'
+                            let mut unicode_hex = String::new();
+                            let mut value: u64 = 0;
+                            let mut well_formed = chars.next() == Some('{');
+                            let mut closed = false;
+                            if well_formed {
+                                for c in chars.by_ref() {
+                                    if c == '}' {
+                                        closed = true;
+                                        break;
+                                    }
+                                    unicode_hex.push(c);
+                                    match c.to_digit(16) {
+                                        Some(digit) => {
+                                            value = (value * 16 + digit as u64).min(1 << 40);
+                                        }
+                                        None => {
+                                            well_formed = false;
+                                            break;
+                                        }
+                                    }
                                 }
+                            }
+                            if !well_formed
+                                || !closed
+                                || unicode_hex.is_empty()
+                                || value > max_code_point
+                            {
+                                return Err(t!(
+                                    "Invalid unicode escape sequence '\\u{{%{unicode_hex}}}'",
+                                    unicode_hex = unicode_hex
+                                )
+                                .to_string());
                             }
                         }
                         '0'..='9' => {
-                            // Decimal escape sequence
+                            // Decimal escape sequence: up to three digits, at most 255
+                            let mut value = next_char.to_digit(10).unwrap_or(0);
                             for _ in 0..2 {
-                                if let Some(digit) = chars.peek() {
-                                    if !digit.is_ascii_digit() {
-                                        break;
+                                match chars.peek().and_then(|digit| digit.to_digit(10)) {
+                                    Some(digit) => {
+                                        value = value * 10 + digit;
+                                        chars.next();
                                     }
-                                    chars.next();
+                                    None => break,
                                 }
                             }
+                            if value > 255 {
+                                return Err(t!(
+                                    "Decimal escape sequence too large '\\%{value}'",
+                                    value = value
+                                )
+                                .to_string());
+                            }
                         }
-                        'z' => {
+                        'z' if !lua51 => {
                             // Skip whitespace
                             while let Some(c) = chars.peek() {
                                 if !c.is_whitespace() {
@@ -153,7 +194,13 @@ fn check_normal_string_error(string_token: &LuaSyntaxToken) -> Result<(), String
                             }
                         }
                         _ => {
-                            // donot check other escape sequence
+                            if !lua51 {
+                                return Err(t!(
+                                    "Invalid escape sequence '\\%{escape}'",
+                                    escape = next_char
+                                )
+                                .to_string());
+                            }
                         }
                     }
                 }
